@@ -101,4 +101,73 @@ theorem wellNested_coalesce (s : Stream) (h : WellNested s) : WellNested (coales
   unfold WellNested coalesce at *
   rw [balance_coalesceGo]; exact h
 
+/-! ### seams: `_coalesce` joins TEXT with TEXT only
+
+Whatever stands between two pieces of character data — an END_CDATA directly
+followed by a START_CDATA in particular — stays where it is, and the text on
+its two sides is never joined.  (A CDATA section is the only place where the
+serializer writes text verbatim, so joining `a]]` and `>b` across the seam of
+`<![CDATA[a]]]]><![CDATA[>b]]>` would make the output ill-formed.) -/
+
+theorem coalesceGo_append_nontext (e : Event) (he : isText e = false) (b : Stream) :
+    ∀ (a : Stream) (buf : Option Str),
+      coalesceGo buf (a ++ e :: b) = coalesceGo buf a ++ e :: coalesce b := by
+  intro a
+  induction a with
+  | nil =>
+    intro buf
+    cases buf <;> cases e <;> simp_all [coalesceGo, coalesce, isText]
+  | cons x xs ih =>
+    intro buf
+    cases buf with
+    | none =>
+      cases x with
+      | text s f => simp only [List.cons_append, coalesceGo]; exact ih _
+      | _ => simp only [List.cons_append, coalesceGo, ih]
+    | some t =>
+      cases x with
+      | text s f => simp only [List.cons_append, coalesceGo]; exact ih _
+      | _ => simp only [List.cons_append, coalesceGo, ih]
+
+/-- an event that is not TEXT splits the work of `_coalesce` in two -/
+theorem coalesce_append_nontext (a b : Stream) (e : Event) (he : isText e = false) :
+    coalesce (a ++ e :: b) = coalesce a ++ e :: coalesce b :=
+  coalesceGo_append_nontext e he b a none
+
+/-- two CDATA sections that directly follow each other stay two sections -/
+theorem coalesce_cdata_seam (a b : Stream) :
+    coalesce (a ++ .endCdata :: .startCdata :: b) = coalesce a ++ .endCdata :: .startCdata :: coalesce b := by
+  rw [coalesce_append_nontext a _ .endCdata rfl]
+  have := coalesce_append_nontext [] b .startCdata rfl
+  simp only [List.nil_append] at this
+  rw [this]; simp [coalesce, coalesceGo]
+
+/-- the events other than TEXT, in order -/
+def nonText (s : Stream) : Stream := s.filter fun e => !isText e
+
+theorem nonText_text (s : Str) (f : Bool) (es : Stream) : nonText (.text s f :: es) = nonText es := rfl
+
+theorem nonText_cons (e : Event) (he : isText e = false) (es : Stream) : nonText (e :: es) = e :: nonText es := by
+  simp [nonText, List.filter_cons, he]
+
+theorem nonText_coalesceGo : ∀ (s : Stream) (buf : Option Str),
+    nonText (coalesceGo buf s) = nonText s := by
+  intro s
+  induction s with
+  | nil => intro buf; cases buf <;> rfl
+  | cons e es ih =>
+    intro buf
+    cases buf with
+    | none =>
+      cases e with
+      | text s f => simp only [coalesceGo, nonText_text]; exact ih _
+      | _ => simp only [coalesceGo]; rw [nonText_cons _ rfl, nonText_cons _ rfl, ih]
+    | some t =>
+      cases e with
+      | text s f => simp only [coalesceGo, nonText_text]; exact ih _
+      | _ => simp only [coalesceGo, nonText_text]; rw [nonText_cons _ rfl, nonText_cons _ rfl, ih]
+
+/-- `_coalesce` neither drops, adds, moves nor merges an event that is not TEXT -/
+theorem nonText_coalesce (s : Stream) : nonText (coalesce s) = nonText s := nonText_coalesceGo s none
+
 end Genshi.Xml
